@@ -187,6 +187,8 @@ CLAIMED = {
 }
 
 NOT_APPLICABLE = {
+    "C02": "the claim concerns the library's preprocessing of independently simulated data (curve_fit, rotation search, normalisation) and a strict-inequality statement about a neighbourhood of one numerical point; only the forward chain is encodable and that is already decided operator by operator by C16, so a reduced check would not decide this property (DESIGN.md §6)",
+    "C04": "DirectPtychography.reconstruct and the probe-side aperture/aberration pipeline need a much larger modelled torch surface than was built; not modelled, hence not claimed rather than checked by another technique (DESIGN.md §6)",
     "C05": "torch optimiser state, pickle streams and a floating-point optimisation trajectory cannot be encoded for a solver; nothing in the claim is a bounded symbolic statement (DESIGN.md §6)",
     "C07": "oracle is compiled scikit-image code, implementation is the C++ grid_sample kernel over float trigonometry; agreement of two float programs is not decidable by a real-arithmetic encoding (DESIGN.md §6)",
 }
